@@ -79,6 +79,7 @@ def main():
     args = sys.argv[1:]
     redo = '--redo-noted' in args        # only re-analyse clauses whose last analysis ended with a note (compile error)
     closure_only = '--closure-only' in args
+    only_names = set(sum((a[7:].split(',') for a in args if a.startswith('--only=')), []))
     units = [a for a in args if not a.startswith('--')] or ['reg_common', 'hub', 'reward', 'dispatcher', 'registry', 'tokens']
     out_path = os.path.join(VERIF, 'units', 'tagdeps.json')
     out = json.load(open(out_path)) if os.path.exists(out_path) else {}
@@ -86,8 +87,8 @@ def main():
         if closure_only:
             path, meta = extract.build_unit(u, '/repo', VERIF, os.path.join(VERIF, 'build'))
             res = {x: dict(needed_by=r['needed_by'], notes=r['notes']) for x, r in out.get(u, {}).items()}
-        elif redo:
-            only = set(x for x, r in out.get(u, {}).items() if r['notes'])
+        elif redo or only_names:
+            only = set(x for x, r in out.get(u, {}).items() if r['notes']) | only_names
             meta, res2 = analyse(u, only=only)
             res = {x: dict(needed_by=r['needed_by'], notes=r['notes']) for x, r in out.get(u, {}).items()}
             res.update(res2)
@@ -111,12 +112,11 @@ def main():
             changed = False
             for x, r in res.items():
                 for y in r['needed_by']:
-                    if '#BODY:' in y:
-                        f, kind = y.split('#BODY:')
-                        # only semantic body obligations (invariants, preconditions of contracted callees) carry clauses; hints and panic
-                        # conditions that stop verifying do not decide a property (DESIGN 7)
-                        add = fn_props.get(f, set()) if kind == 'semantic' else set()
-                    else: add = props.get(y, set())
+                    # only named clauses carry a dependency: `P-clause Y of a caller cannot be proved without X`.  Body obligations of the caller
+                    # that stop verifying (invariants, hints, panic conditions) are recorded in needed_by but attribute nothing: they would
+                    # spread X over every property of the caller
+                    if '#BODY:' in y: continue
+                    add = props.get(y, set())
                     if not add <= props[x]: props[x] |= add; changed = True
         out[u] = {x: dict(needed_by=r['needed_by'], extra_props=sorted(props[x] - tags[x]), notes=r['notes']) for x, r in res.items()}
         json.dump(out, open(out_path, 'w'), indent=1, sort_keys=True)
